@@ -15,7 +15,7 @@
 (* unconstrained (the language does not say); values in a channel keep     *)
 (* their send order.                                                       *)
 (***************************************************************************)
-EXTENDS Integers, Sequences, FiniteSets, TLC
+EXTENDS Integers, Sequences, FiniteSets, TLC, GoChanDefs
 
 CONSTANTS NG,      \* goroutines 1..NG, 1 is main
           NC,      \* channels 1..NC; channel 0 is the nil channel
@@ -34,21 +34,6 @@ VARIABLES cap,     \* cap[c]: capacity of channel c (fixed per program)
           ended    \* "" | "exit" | "deadlock"
 
 cvars == <<cap, st, op, res, buf, closed, ended>>
-
-NoOp  == [k |-> "none", c |-> 0, v |-> 0, offers |-> <<>>, dflt |-> FALSE]
-NoRes == [t |-> "none", i |-> 0, v |-> 0, ok |-> FALSE]
-
-\* operations (offers: sequence of <<dir, chan, value>>, dir \in {"s", "r"})
-SendOp(c, v)  == [k |-> "send", c |-> c, v |-> v, offers |-> << <<"s", c, v>> >>, dflt |-> FALSE]
-RecvOp(c)     == [k |-> "recv", c |-> c, v |-> 0, offers |-> << <<"r", c, 0>> >>, dflt |-> FALSE]
-SelOp(offs, d) == [k |-> "sel", c |-> 0, v |-> 0, offers |-> offs, dflt |-> d]
-CloseOp(c)    == [k |-> "close", c |-> c, v |-> 0, offers |-> <<>>, dflt |-> FALSE]
-LenOp(c)      == [k |-> "len", c |-> c, v |-> 0, offers |-> <<>>, dflt |-> FALSE]
-YieldOp       == [k |-> "yield", c |-> 0, v |-> 0, offers |-> <<>>, dflt |-> FALSE]
-
-Ok           == [t |-> "ok", i |-> 0, v |-> 0, ok |-> TRUE]
-ValRes(v, b) == [t |-> "val", i |-> 0, v |-> v, ok |-> b]
-PanicRes(w)  == [t |-> w, i |-> 0, v |-> 0, ok |-> FALSE]
 
 CInit ==
   /\ st = [g \in G |-> IF g = 1 THEN "run" ELSE "off"]
